@@ -392,7 +392,8 @@ class BVReduceBW:
         bws = sorted(set([bw - 1, bw // 2, 2, 1]))
         varname = '_{}'.format(node[1])
         if not node[1].is_leaf() or is_piped_symbol(
-                node[1]) or is_declared_symbol(Node(varname)):
+                node[1]) or node[1].data[:1] in ('"', ';') or is_declared_symbol(
+                    Node(varname)):
             # the name of the fresh variable is not a fresh simple symbol
             return
         for b in bws:
